@@ -13,12 +13,13 @@ TInit == Init /\ l = 1 /\ RegInit
 
 TNew == /\ Consume("New")
         /\ st' = [r \in Reqs |-> "new"] /\ id' = [r \in Reqs |-> 0]
-        /\ addT' = [r \in Reqs |-> 0] /\ sndT' = [r \in Reqs |-> 0]
+        /\ addT' = [r \in Reqs |-> 0] /\ sndT' = [r \in Reqs |-> -1]
         /\ cause' = [r \in Reqs |-> NoCause] /\ sigok' = [r \in Reqs |-> FALSE]
         /\ sendq' = <<>> /\ respq' = <<>> /\ wire' = <<>>
         /\ conn' = "none" /\ connT' = 0 /\ rStart' = -1000 /\ rCount' = 0
         /\ peer' = "open" /\ pollm' = "ready" /\ openm' = "ok" /\ clock' = 0
         /\ usedIds' = {} /\ ret' = [r \in Reqs |-> 0] /\ arrived' = [r \in Reqs |-> FALSE] /\ early' = [r \in Reqs |-> FALSE]
+        /\ xdone' = {}
         /\ out' = [op |-> "init"]
         /\ Done
 
@@ -38,10 +39,12 @@ TRun == /\ Consume("Run")
 
 TSrv  == Consume("Srv") /\ ServerWrites(Ev.m) /\ Done
 TPeer == Consume("Peer") /\ PeerEnds(Ev.how) /\ Done
-TPoll == /\ Consume("Poll") /\ pollm' = Ev.v /\ out' = [op |-> "env"] /\ UNCHANGED <<Env, wire, peer, openm, clock>> /\ Done
-TOpen == /\ Consume("Open") /\ openm' = Ev.v /\ out' = [op |-> "env"] /\ UNCHANGED <<Env, wire, peer, pollm, clock>> /\ Done
+TPoll == /\ Consume("Poll") /\ pollm' = Ev.v /\ out' = [op |-> "env"] /\ UNCHANGED <<Env, wire, peer, openm, clock, xdone>> /\ Done
+TOpen == /\ Consume("Open") /\ openm' = Ev.v /\ out' = [op |-> "env"] /\ UNCHANGED <<Env, wire, peer, pollm, clock, xdone>> /\ Done
 TTick == Consume("Tick") /\ Tick(Ev.n) /\ Done
+(* HTTP: the exchange of request x completed: {"e": "HDone", "x": r, "res": "body"|"curlerr"|"httperr", "msgs": [...], "junk": bool} *)
+THDone == Consume("HDone") /\ ExchangeCompletes([x |-> Ev.x, res |-> Ev.res, msgs |-> Ev.msgs, junk |-> Ev.junk]) /\ Done
 
-TNext == TNew \/ TAdd \/ TRun \/ TSrv \/ TPeer \/ TPoll \/ TOpen \/ TTick
+TNext == TNew \/ TAdd \/ TRun \/ TSrv \/ TPeer \/ TPoll \/ TOpen \/ TTick \/ THDone
 TSpec == TInit /\ [][TNext]_<<vars, l>>
 =============================================================================
